@@ -6,7 +6,7 @@
    directory and, by [crash_closed], of every state reachable by workloads and crashes — so all
    theorems apply to arbitrary histories of runs, crashes and restarts. *)
 From Coq Require Import List Bool NArith Arith.
-From PV Require Import C16.Model C16.Proofs C16.ProofsCodec C16.ProofsStore C16.ProofsText C16.Concurrent.
+From PV Require Import C16.Model C16.Proofs C16.ProofsCodec C16.ProofsStore C16.ProofsText C16.Concurrent C16.Serial.
 Import ListNotations.
 
 (* The empty directory satisfies the invariant. *)
@@ -259,4 +259,99 @@ Proof.
   intros sched H. destruct serial_all_schedules as [H1 [H2 H3]].
   pose proof (all_scheds_complete 12 sched H) as Hin.
   rewrite forallb_forall in H1, H2, H3. auto.
+Qed.
+
+(* ---- two concurrent writers: every schedule, every pair of models ---------------------------- *)
+(* The locked section of a writer (path_lock(.lock) ... PENDING ... store ... unlink PENDING) is LOCAL: on two
+   file systems that agree outside the subtree of another key K' and the lock file (and on the entry lists of
+   all directories other than .modeldb itself and those of K') it performs the same operations, returns the
+   same result and keeps the two file systems related.  This is the commutation fact behind the theorem
+   below: what another writer does before it holds the lock cannot influence a locked section. *)
+Theorem locked_section_local :
+  forall (m : mdl) (K' : N) (f g : fs),
+    m_key m <> K' -> R (SW K') (DW K') f g ->
+    critical m f = critical m g
+    /\ R (SW K') (DW K') (run_ops (fst (critical m f)) f) (run_ops (fst (critical m f)) g).
+Proof.
+  intros m K' f g HK HR. destruct (sim_crit_W m K' HK f g HR) as [E Ha]. split; [exact E|].
+  apply R_run; assumption.
+Qed.
+
+(* two_writers_serializable: for ALL pairs of models with different keys (same or different dataset, datainfo,
+   results, names), ALL consistent initial states of an existing database whose two keys carry no PENDING
+   marker (J holds after every history of workloads and crashes: crash_keeps_consistent) and ALL schedules
+   (every system call before the lock is a step, the other writer may run between any two of them; the locked
+   section is one step: C15): when both writers have stopped, both have committed and the file system is, path
+   by path, that of one of the two serial orders of the model programs.  Proof: an invariant over the schedule,
+   by parts of the tree (subtree of key 1, subtree of key 2, the rest) with locked_section_local for the steps
+   inside the lock.  two_writers_terminate: every schedule of at least 12 steps gets there. *)
+Theorem two_writers_serializable :
+  forall (m1 m2 : mdl) (f0 : fs) (sched : list bool),
+    m_key m1 <> m_key m2 -> J f0 -> is_dir f0 [CDb] = true ->
+    exists_ f0 (pending (m_key m1)) = false -> exists_ f0 (pending (m_key m2)) = false ->
+    let s := crun m1 m2 sched f0 in
+    running (c_p1 s) = false -> running (c_p2 s) = false ->
+    c_p1 s = PDone /\ c_p2 s = PDone
+    /\ ((forall p, lookup (c_fs s) p = lookup (run [WDbStore m1; WDbStore m2] f0) p)
+        \/ (forall p, lookup (c_fs s) p = lookup (run [WDbStore m2; WDbStore m1] f0) p)).
+Proof. exact two_writers_serializable_lemma. Qed.
+
+Theorem two_writers_terminate :
+  forall (m1 m2 : mdl) (f0 : fs) (sched : list bool), 12 <= length sched ->
+    running (c_p1 (crun m1 m2 sched f0)) = false /\ running (c_p2 (crun m1 m2 sched f0)) = false.
+Proof. intros m1 m2 f0 sched H. apply schedule_completes. exact H. Qed.
+
+(* ---- two writers of a file guarded by its own lock file --------------------------------------- *)
+(* `with self._write_lock(path): body` for ANY lock file lk and ANY two bodies that neither read nor write
+   the lock file (sim (Slk lk) D0 b: related file systems drive b through the same operations): the two
+   system calls of Path.touch(lock) are steps of their own, the locked body is one step (C15).  For ALL initial
+   states in which the directory of the lock file exists and ALL schedules: when both have stopped, the file
+   system is, path by path, that of one of the two serial orders of the programs `lock lk ;; b`, and each
+   writer ended (returned or raised) as in that serial order.  Six steps are enough. *)
+Theorem locked_writers_serializable :
+  forall (lk : path) (b1 b2 : M unit) (f0 : fs) (sched : list bool),
+    parent_ok f0 lk = true -> sim (Slk lk) D0 b1 -> sim (Slk lk) D0 b2 ->
+    let s := lcrun lk b1 b2 sched f0 in
+    lrunning (l_p1 s) = false -> lrunning (l_p2 s) = false ->
+    ((forall p, lookup (l_fs s) p = lookup (ser lk b2 (ser lk b1 f0)) p)
+     /\ lres (l_p1 s) = Some (resu lk b1 f0) /\ lres (l_p2 s) = Some (resu lk b2 (ser lk b1 f0)))
+    \/ ((forall p, lookup (l_fs s) p = lookup (ser lk b1 (ser lk b2 f0)) p)
+        /\ lres (l_p2 s) = Some (resu lk b2 f0) /\ lres (l_p1 s) = Some (resu lk b1 (ser lk b2 f0))).
+Proof. intros lk b1 b2 f0 sched Hp H1 H2. exact (locked_writers_lemma lk b1 b2 f0 Hp sched H1 H2). Qed.
+
+Theorem locked_writers_terminate :
+  forall (lk : path) (b1 b2 : M unit) (f0 : fs) (sched : list bool), 6 <= length sched ->
+    lrunning (l_p1 (lcrun lk b1 b2 sched f0)) = false /\ lrunning (l_p2 (lcrun lk b1 b2 sched f0)) = false.
+Proof. intros lk b1 b2 f0 sched H. apply locked_schedule_completes. exact H. Qed.
+
+(* The instances of the context: two concurrent store_annotation calls (ANY names and texts, equal names
+   included) and two concurrent log messages, from ANY state whose context directory exists, under ANY
+   schedule, leave the file system of `a; b` or of `b; a` — no update of the annotations file is lost, no log
+   line is lost or mixed. *)
+Theorem annotation_writers_serializable :
+  forall (n1 a1 n2 a2 : str) (f0 : fs) (sched : list bool),
+    is_dir f0 [] = true ->
+    let s := lcrun annot_lock (annot_body n1 a1) (annot_body n2 a2) sched f0 in
+    lrunning (l_p1 s) = false -> lrunning (l_p2 s) = false ->
+    (forall p, lookup (l_fs s) p = lookup (run [WAnnot n1 a1; WAnnot n2 a2] f0) p)
+    \/ (forall p, lookup (l_fs s) p = lookup (run [WAnnot n2 a2; WAnnot n1 a1] f0) p).
+Proof.
+  intros n1 a1 n2 a2 f0 sched Hd s R1 R2.
+  destruct (locked_writers_lemma annot_lock (annot_body n1 a1) (annot_body n2 a2) f0 Hd sched
+              (sim_annot_body n1 a1) (sim_annot_body n2 a2) R1 R2) as [[H _]|[H _]]; [left | right];
+    rewrite run_cons, <- !ser_annot; exact H.
+Qed.
+
+Theorem log_writers_serializable :
+  forall (p1 d1 s1 g1 p2 d2 s2 g2 : str) (f0 : fs) (sched : list bool),
+    is_dir f0 [] = true ->
+    let s := lcrun log_lock (log_body p1 d1 s1 g1) (log_body p2 d2 s2 g2) sched f0 in
+    lrunning (l_p1 s) = false -> lrunning (l_p2 s) = false ->
+    (forall p, lookup (l_fs s) p = lookup (run [WLog p1 d1 s1 g1; WLog p2 d2 s2 g2] f0) p)
+    \/ (forall p, lookup (l_fs s) p = lookup (run [WLog p2 d2 s2 g2; WLog p1 d1 s1 g1] f0) p).
+Proof.
+  intros p1 d1 s1 g1 p2 d2 s2 g2 f0 sched Hd s R1 R2.
+  destruct (locked_writers_lemma log_lock (log_body p1 d1 s1 g1) (log_body p2 d2 s2 g2) f0 Hd sched
+              (sim_log_body p1 d1 s1 g1) (sim_log_body p2 d2 s2 g2) R1 R2) as [[H _]|[H _]]; [left | right];
+    rewrite run_cons, <- !ser_log; exact H.
 Qed.
